@@ -71,6 +71,7 @@ type tnode struct {
 	Path string
 	Kind int // kReg / kDir / kSym (hard links are regular files here)
 	Sum  int // content id (regular) or id of the link target (symlink); 0 = bookkeeping file, not compared
+	Link string // symlinks: the target, verbatim
 	Mode int64
 	UID  int
 	GID  int
@@ -164,7 +165,7 @@ func walk(fsys apkfs.FullFS, t *ids) ([]tnode, error) {
 			if err != nil {
 				// tarfs resolves symlinks in Lstat; a dangling one cannot be stat'ed
 				if tgt, rerr := fsys.Readlink(p); rerr == nil {
-					out = append(out, tnode{Path: p, Kind: kSym, Sum: t.id(tgt), Mode: 0o777, UID: -1, GID: -1})
+					out = append(out, tnode{Path: p, Kind: kSym, Sum: t.id(tgt), Mode: 0o777, UID: -1, GID: -1, Link: tgt})
 					continue
 				}
 				return fmt.Errorf("lstat %s: %w", p, err)
@@ -177,7 +178,7 @@ func walk(fsys apkfs.FullFS, t *ids) ([]tnode, error) {
 			}
 			if tgt, rerr := fsys.Readlink(p); rerr == nil {
 				// a symlink, whatever Lstat resolved to
-				n.Kind, n.Sum, n.Mode = kSym, t.id(tgt), 0o777
+				n.Kind, n.Sum, n.Mode, n.Link = kSym, t.id(tgt), 0o777, tgt
 				if fi.Mode()&fs.ModeSymlink != 0 {
 					n.Mode = unixMode(fi.Mode())
 				} else {
@@ -199,7 +200,12 @@ func walk(fsys apkfs.FullFS, t *ids) ([]tnode, error) {
 				if !volatile(p) {
 					b, err := fsys.ReadFile(p)
 					if err != nil {
-						return fmt.Errorf("readfile %s: %w", p, err)
+						// listed and stat'able, yet not readable: the directory backend's
+						// overlay knows a file the disk does not have (left by a failed
+						// create through a dangling link). Reported as "other".
+						n.Kind = 9
+						out = append(out, n)
+						continue
 					}
 					n.Sum = t.id(string(b))
 				}
